@@ -20,7 +20,7 @@ META = {
     "outside": ["more than 3 targets", "selections outside the pattern catalogue"],
 }
 
-PATS = [(), ("B",), ("A", "C"), ("*",), ("X*",)]
+PATS = [(), ("B",), ("A", "C"), ("*",), ("X*",), ("A.x",), ("A.*",), ("A?x", "Ax*")]      # the last three are meant for the shape with dotted names
 ST = ["none", "pending", "running", "done"]
 CANCEL_EXE = {"slurm": "scancel", "sge": "qdel", "lsf": "bkill"}
 
@@ -46,7 +46,7 @@ def _q17(ja, jb, jc, pi, force, answer, k):
     pats = q.pick(PATS, pi)
     kk = q.pick([0, 1, 2, 3], k)
     with q.notrace():
-        pr = Project("chain3", be)
+        pr = Project(sh.get("shape", "chain3"), be)
         pr.add_sources(5)
         w = pr.w
         ids = {}
@@ -98,6 +98,11 @@ def _q17(ja, jb, jc, pi, force, answer, k):
         failed_cmd = None
         if kk and w.sim is not None and len(cancels) >= kk:
             failed_cmd = str(cancels[kk - 1])
+            # a scheduler error is reported for that target (any line other than the announcement that names it)
+            for nm in sel:
+                if nm in ids and str(ids[nm]) == failed_cmd:
+                    if not any((nm in ln.split() or (" " + nm + " ") in (" " + ln + " ")) and not ln.startswith("Cancelling target") for ln in lines):
+                        return "the cancel command for %s (job %s) failed at the scheduler but gwf cancel did not report it (output: %s)" % (nm, failed_cmd, lines[:6])
         table = w.status_table()
         for nm in sel:
             if nm in ids and str(ids[nm]) != failed_cmd and ST[js[pr.idx(nm)]] in ("pending", "running"):
@@ -134,10 +139,11 @@ def q17(ja: int, jb: int, jc: int, pi: int, force: bool, answer: bool, k: int) -
 
 QUERIES = [
     {"name": "Q17", "fn": q17,
-     "shards": {"quick": [{"be": "slurm", "pi": p, "k": k, "nstates": 3} for p in (0, 2, 3) for k in range(4)] + [{"be": b, "pi": 2, "k": k, "nstates": 3} for b in ("sge", "lsf") for k in (0, 1)] + [{"be": "local", "pi": 2, "k": 0, "nstates": 3}, {"be": "slurm", "pi": 1, "k": 1, "nstates": 3}, {"be": "slurm", "pi": 4, "k": 0, "nstates": 3}],
-                "thorough": [{"be": b, "pi": p, "k": k} for b in ("slurm", "sge", "lsf") for p in range(len(PATS)) for k in range(4)] + [{"be": "local", "pi": p, "k": 0} for p in range(len(PATS))]},
+     "shards": {"quick": [{"be": "slurm", "pi": p, "k": k, "nstates": 3} for p in (0, 2, 3) for k in range(4)] + [{"be": b, "pi": 2, "k": k, "nstates": 3} for b in ("sge", "lsf") for k in (0, 1)] + [{"be": "local", "pi": 2, "k": 0, "nstates": 3}, {"be": "slurm", "pi": 1, "k": 1, "nstates": 3}, {"be": "slurm", "pi": 4, "k": 0, "nstates": 3}]
+                         + [{"be": "slurm", "pi": p, "k": 0, "nstates": 3, "shape": "dotted"} for p in (5, 6, 7)],
+                "thorough": [{"be": b, "pi": p, "k": 0, "shape": "dotted"} for b in ("slurm", "local") for p in (0, 5, 6, 7)] + [{"be": b, "pi": p, "k": k} for b in ("slurm", "sge", "lsf") for p in range(5) for k in range(4)] + [{"be": "local", "pi": p, "k": 0} for p in range(5)]},
      "timeout": {"quick": 1800, "thorough": 3600},
-     "bound": "chain of 3; each target never submitted / pending / running (quick) + finished (thorough), symbolic; selections %s; --force or prompt answer; the k-th cancel command failing for k in 0..3 (symbolic; none for the pool, whose protocol has no answer to cancel); "
+     "bound": "chain of 3 (and, for the last three selections, three targets named A.x, A_x, Axx); each target never submitted / pending / running (quick) + finished (thorough), symbolic; selections %s; --force or prompt answer; the k-th cancel command failing for k in 0..3 (symbolic; none for the pool, whose protocol has no answer to cancel); "
               "then status and run; Slurm all selections + two selections on SGE, LSF, pool (quick); everything (thorough)" % (PATS,)},
 ]
 
